@@ -170,18 +170,25 @@ def check(run, replay=None):
             cases.append(("replay", [l for l in txt.split("\n") if l.strip() and not l.startswith("#")]))
     else:
         cases += load_corpus()
+        # one independent stream per case class (all derived from the run seed), so that adding a
+        # class never changes the inputs of the others
+        def sub(name):
+            return random.Random("C13/%s/%d" % (name, run.seed))
+        rng_follow, rng_list, rng_raw, rng_grp = sub("follow"), sub("list"), sub("raw"), sub("groups")
         for i, ls in enumerate(G.boundary_cases(rng, k)):
             cases.append(("boundary%d" % i, ls))
         for i in range(60 if run.tier == "quick" else 1500):
-            cases.append(("follow%d" % i, G.gen_follow_case(rng, k)))
+            cases.append(("follow%d" % i, G.gen_follow_case(rng_follow, k)))
+        for i in range(40 if run.tier == "quick" else 800):
+            cases.append(("list%d" % i, G.gen_list_case(rng_list, k)))
         nrand = 260 if run.tier == "quick" else 4000
         for i in range(nrand):
             cases.append(("rand%d" % i, G.gen_case(rng, k, i)))
         if WHITEBOX["ok"]:
-            raw = G.raw_cases(rng, 150 if run.tier == "quick" else 3000)
+            raw = G.raw_cases(rng_raw, 150 if run.tier == "quick" else 3000)
             for i in range(0, len(raw), 25):
                 cases.append(("raw%d" % (i // 25), raw[i:i + 25]))
-            grp = G.group_cases(rng, 200 if run.tier == "quick" else 4000)
+            grp = G.group_cases(rng_grp, 200 if run.tier == "quick" else 4000)
             for i in range(0, len(grp), 25):
                 cases.append(("groups%d" % (i // 25), grp[i:i + 25]))
     if not WHITEBOX["ok"]:
